@@ -126,7 +126,7 @@ def cases(draw, prof, maxlen):
     return {"spec": spec, "history": hist}
 
 
-PROFILE = specgen.profile(partial=True, faults=True, lazy_root=False, domain_rate=0.02)
+PROFILE = specgen.profile(partial=True, faults=True, lazy_root=False, domain_rate=0.08)
 PARTS = [
     Part("fault-histories", check, strategy=lambda ctx: cases(PROFILE, 7 if ctx.tier == "quick" else 14),
          budget={"quick": 400, "thorough": 1500}),
